@@ -345,6 +345,21 @@ class Check:
         if len(sets) != len(names):
             self.broken.append(f'props {vfile}: {len(names)} Print Assumptions commands, {len(sets)} answers')
             ok = False
+        if self.tier == 'thorough' and ok:
+            # independent re-check of the compiled property file and everything it depends on
+            mod = 'FpyV.' + vfile[:-2].replace('/', '.')
+            with Lock('coq'):
+                rc2, out2 = sh(f'timeout 3000 coqchk -silent -o -Q . FpyV {mod}', cwd=COQ, timeout=3100)
+            (self.dir / f'coqchk_{p.stem}.log').write_text(out2)
+            self.checker_cmds.append(f'coqchk -silent -o -Q coq FpyV {mod}')
+            m = re.search(r'\* Axioms:(.*?)\n\s*\n\* Constants', out2, re.S)
+            axs = [a.strip() for a in (m.group(1).splitlines() if m else []) if a.strip() and a.strip() != '<none>']
+            self.extra['coqchk_axioms'] = axs
+            bad = [a for a in axs if a.replace('Coq.Logic.', '').replace('Coq.Reals.', '') not in AXIOM_ALLOW
+                   and a.split('.', 2)[-1] not in AXIOM_ALLOW]
+            if rc2 != 0 or 'type-in-type: <none>' not in out2 or bad:
+                ok = False
+                self.broken.append(f'coqchk {mod}: rc={rc2} unexpected axioms {bad}: ' + out2[-400:])
         return ok, names
 
     def coq_eval_mismatches(self, header, case_type, cases, check_fn, chunk=400, timeout=900, jobs=16, tag='cases'):
